@@ -143,16 +143,19 @@ def count_obligations(files):
 
 def coqchk_all():
     """independent re-check (coqchk -o) of the WHOLE development and everything it depends on; one run (about 17 min)
-    serves every property: the result is cached against the compiled files' signature"""
+    serves every property: the result is cached against the content of the source files"""
+    import hashlib
     mods, sig = [], []
     with open(os.path.join(COQ, "_CoqProject")) as f:
         for l in f:
             l = l.strip()
             if l.endswith(".v"):
                 mods.append("LNN." + l[:-2].replace("/", "."))
-                vo = os.path.join(COQ, l[:-2] + ".vo")
-                sig.append((l, os.path.getmtime(vo) if os.path.exists(vo) else 0))
-    import hashlib
+                # the signature is the CONTENT of every source file (the .vo files are rebuilt from them on every run;
+                # their mtimes change whenever a property file is recompiled)
+                src = os.path.join(COQ, l)
+                with open(src, "rb") as fh:
+                    sig.append((l, hashlib.sha256(fh.read()).hexdigest()))
     key = hashlib.sha256(json.dumps(sig).encode()).hexdigest()
     cache = os.path.join(COQ, ".coqchk_cache.json")
     with Lock():
